@@ -4,7 +4,7 @@
    algorithm Model against Spec).  The correspondence run ties otto itself to
    Model and Spec on every generated history. *)
 From Coq Require Import ZArith NArith List Bool.
-From Otto Require Import C07.Spec C07.Model C07.Proofs C07.ProofsRefine C07.ProofsRefineFixed.
+From Otto Require Import Common.Corr C07.Spec C07.Model C07.Proofs C07.ProofsRefine C07.ProofsReach.
 Import ListNotations.
 Open Scope Z_scope.
 
@@ -88,11 +88,11 @@ Proof. exact to_mdesc_refines. Qed.
 Print Assumptions C07_descriptor_conversion.
 
 (* objectDefineOwnProperty on an existing property is 8.12.9 steps 5-13, for every stored property
-   (any valid octal mode, any payload), every descriptor, outside the two defect classes *)
+   (any valid octal mode, any payload) and every descriptor.  Unguarded since the repairs b253246
+   (generic descriptor kept [[Writable]]) and 11c8465 (accessor to data property without a value). *)
 Theorem C07_define_refines : forall p d,
   wf_prop p -> wf_desc d ->
-  loses_writable p d = false -> acc_to_data_no_value p d = false ->
-  abs_res p (m_define_existing nofix p d) = define_existing (abs_prop p) (abs_desc d).
+  abs_res p (m_define_existing p d) = define_existing (abs_prop p) (abs_desc d).
 Proof. exact define_existing_refines. Qed.
 Print Assumptions C07_define_refines.
 
@@ -100,65 +100,61 @@ Theorem C07_define_new_refines : forall d, wf_desc d -> abs_prop (m_define_new d
 Proof. exact define_new_refines. Qed.
 Print Assumptions C07_define_new_refines.
 
-(* which octal modes / payloads are reachable: well-formedness is kept by every redefinition *)
+(* which octal modes / payloads are reachable: every redefinition keeps the stored property
+   well-formed, in particular a getter/setter pair is never stored under a data mode *)
 Theorem C07_mode_reachable : forall p d p',
-  wf_prop p -> wf_desc d -> acc_to_data_no_value p d = false ->
-  m_define_existing nofix p d = DOk p' -> wf_prop p'.
+  wf_prop p -> wf_desc d -> m_define_existing p d = DOk p' -> wf_prop p'.
 Proof. exact define_existing_wf. Qed.
 Print Assumptions C07_mode_reachable.
 
-(* with the two proposed repairs of objectDefineOwnProperty applied (proposed_fixes/C07-writable-lost.diff,
-   C07-acc-to-data.diff; Model's [allfix]) the refinement holds without any guard *)
-Theorem C07_define_refines_after_fix : forall p d,
-  wf_prop p -> wf_desc d ->
-  abs_res p (m_define_existing allfix p d) = define_existing (abs_prop p) (abs_desc d).
-Proof. exact define_existing_refines_after_fix. Qed.
-Print Assumptions C07_define_refines_after_fix.
+Theorem C07_mode_reachable_new : forall d, wf_desc d -> wf_prop (m_define_new d).
+Proof. exact define_new_wf. Qed.
+Print Assumptions C07_mode_reachable_new.
 
-(* ---- otto's deviations, as refutations with witnesses ---- *)
-Theorem C07_generic_writable_refuted :
-  exists p d, wf_prop p /\ wf_desc d /\
-    abs_res p (m_define_existing nofix p d) <> define_existing (abs_prop p) (abs_desc d).
-Proof. exact generic_writable_refuted. Qed.
-Print Assumptions C07_generic_writable_refuted.
+(* fromPropertyDescriptor on any reachable stored property never panics and is the ES5 descriptor
+   (8.10.4), also for an accessor whose getter and setter are both undefined (repair cbc8127) *)
+Theorem C07_descriptor_roundtrip : forall p, wf_prop p ->
+  m_obs_desc (Some p) = Some (obs_desc (Some (abs_prop p))).
+Proof. exact obs_desc_refines. Qed.
+Print Assumptions C07_descriptor_roundtrip.
 
-Theorem C07_accessor_to_data_no_value_refuted :
-  exists p d, wf_prop p /\ wf_desc d /\ m_define_existing nofix p d = DOk (mkMP (SGetSet (Some 0) None) 65%N)
-    /\ m_obs_desc nofix (Some (mkMP (SGetSet (Some 0) None) 65%N)) = None
-    /\ define_existing (abs_prop p) (abs_desc d) = Some (PData VUndef true false true).
-Proof. exact accessor_to_data_no_value_refuted. Qed.
-Print Assumptions C07_accessor_to_data_no_value_refuted.
+(* for-in over an object whose body deletes properties (repair 7f33b5d: the loop ranges over a copy
+   of the order list): no name is visited twice and only own names are visited *)
+Theorem C07_forin_delete_nodup : forall h cur o at_n a2 del_n,
+  nth_error h cur = Some o -> m_proto o = None -> NoDup (m_own_names o) ->
+  NoDup (snd (m_forin_del (length h) h cur at_n a2 del_n [])) /\
+  forall n, In n (snd (m_forin_del (length h) h cur at_n a2 del_n [])) -> In n (m_own_names o).
+Proof. exact forin_delete_nodup. Qed.
+Print Assumptions C07_forin_delete_nodup.
 
-Theorem C07_get_undefined_pair_refuted :
-  exists r d, to_mdesc r = Some d /\
-    m_obs_desc nofix (Some (m_define_new d)) <> Some (obs_desc (Some (define_new (abs_desc d)))).
-Proof. exact get_undefined_pair_refuted. Qed.
-Print Assumptions C07_get_undefined_pair_refuted.
-
+(* ---- otto's remaining deviations, as refutations with witnesses ---- *)
 Definition num (z : Z) := VNum z.
 Definition dsc v w g s e c := mkR v w g s e c.
 
 Theorem C07_forin_shadow_refuted :
-  exists ops, fst (mrun nofix minit ops) <> run init ops.
+  exists ops, fst (mrun minit ops) <> run init ops.
 Proof.
   exists [OPut 0 0 (num 1); OCreate 1 (Some 0%nat) None; OPut 1 0 (num 2)]. vm_compute. discriminate.
 Qed.
 Print Assumptions C07_forin_shadow_refuted.
 
 Theorem C07_defineproperties_partial_refuted :
-  exists ops, fst (mrun nofix minit ops) <> run init ops.
+  exists ops, fst (mrun minit ops) <> run init ops.
 Proof.
   exists [ODefines 0 [(0, dsc (Some (num 1)) None GAbsent GAbsent None None);
                       (1, dsc None None GBad GAbsent None None)]]. vm_compute. discriminate.
 Qed.
 Print Assumptions C07_defineproperties_partial_refuted.
 
-Theorem C07_forin_delete_refuted :
-  exists ops, fst (mrun nofix minit ops) <> run init ops.
-Proof.
-  exists [OPut 0 0 (num 1); OPut 0 1 (num 2); OPut 0 2 (num 3); OForInDel 0 0 0 0]. vm_compute. discriminate.
-Qed.
-Print Assumptions C07_forin_delete_refuted.
+(* the witnesses of the four repaired defects: model and spec now agree on them *)
+Example C07_repaired_witnesses_agree :
+  forallb (fun ops => list_eqb zlist_eqb (fst (mrun minit ops)) (run init ops))
+    [ [OPut 0 0 (num 1); ODefine 0 0 (dsc None None GAbsent GAbsent (Some false) None)];
+      [ODefine 0 0 (dsc None None (GFn 0) GAbsent None (Some true)); ODefine 0 0 (dsc None (Some true) GAbsent GAbsent None None)];
+      [ODefine 0 0 (dsc None None GUndef GAbsent None None)];
+      [OPut 0 0 (num 1); ODefine 0 0 (dsc None None GUndef GAbsent None None)];
+      [OPut 0 0 (num 1); OPut 0 1 (num 2); OPut 0 2 (num 3); OForInDel 0 0 0 0] ] = true.
+Proof. vm_compute. reflexivity. Qed.
 
 (* ---- non-vacuity: the hypotheses above are met by concrete histories ---- *)
 Definition frozen_history : list op :=
@@ -182,9 +178,14 @@ Proof. eexists. vm_compute. auto. Qed.
 
 Example C07_define_refines_hyp_met :
   wf_prop (mkMP (SVal (num 1)) 73%N) /\ wf_desc (mkMD (DVal (num 2)) 146%N) /\
-  loses_writable (mkMP (SVal (num 1)) 73%N) (mkMD (DVal (num 2)) 146%N) = false /\
-  acc_to_data_no_value (mkMP (SVal (num 1)) 73%N) (mkMD (DVal (num 2)) 146%N) = false.
+  wf_prop (mkMP (SGetSet (Some 0) None) 129%N) /\ wf_desc (mkMD DNone 82%N).
 Proof. repeat split; try reflexivity; try exact I; apply valid_b; reflexivity. Qed.
+
+Example C07_forin_delete_hyp_met :
+  let h := ms_heap (fst (fst (mstep (fst (fst (mstep minit (OPut 0 0 (num 1))))) (OPut 0 1 (num 2))))) in
+  exists o, nth_error h 0 = Some o /\ m_proto o = None /\ m_own_names o = [0; 1] /\
+            snd (m_forin_del (length h) h 0 0 0 0 []) = [0; 1].
+Proof. eexists. vm_compute. auto. Qed.
 
 Example C07_delete_hyp_met :
   exists o', delete_own (mkO None true [(0, PData (num 1) true true true)]) 0 = (o', true).
